@@ -321,7 +321,9 @@ def simulate(env, q, cached, admits):
                     if link.absolute or not pre_actions:
                         ev(link)
                     else:
-                        ev(parse(p.encode() + "/" + link.encode()))
+                        tq = link.transform_query()
+                        joined = (p + tq) if tq is not None else parse(p.encode() + "/" + link.encode())
+                        ev(joined)
             executed.append(action.name)
             if action.name == "sub":
                 from liquer.parser import StringActionParameter
